@@ -438,12 +438,13 @@ fn normalise(bytes: &[u8]) -> Vec<u8> {
     let key = b"Date-Unix-Epoch-Nanos: ";
     let mut out = bytes.to_vec();
     if let Some(i) = crate::util::find(&out, key) {
+        // (one X whatever the number of digits: the simulated epoch differs from run to run)
         let start = i + key.len();
         let mut j = start;
         while j < out.len() && out[j] != b'\r' {
-            out[j] = b'X';
             j += 1;
         }
+        out.splice(start..j, [b'X']);
     }
     out
 }
